@@ -10,6 +10,11 @@ CHECKS = {
          "Breadth-first search over all histories (alphabet ~110 operations: pushes with good/bad descriptors, 9 manifest kinds tagged/untagged, mounts, deletes, one chunked upload session with write/resume/commit/cancel, invalid names) to depth 2 (quick) / 4 with caps (thorough) from the empty registry and from 6 seeded non-initial states, in both configurations, plus a closed mini-universe explored to FIXPOINT (every reachable state, any history length). A state is the canonical reflective dump of the real registry object graph plus upload handles; every transition is a real call compared with a three-valued reference model, then ~260 read/resolve/list queries are compared with the model. All traces are implementation traces.",
          "Bounded universe (2+1 repositories, 3 blobs, 9 manifests, 2 tags, <=3-byte uploads). Codes compared only where interface.go documents them; content-free repositories may be unknown or empty; silent cases are three-valued.",
          "DESIGN.md 3 C02"),
+ "C08": ("model_checking", "E1-sched",
+         "stateless schedule exploration of the real ocimem (and ociclient->ociserver->ocimem) under a cooperative scheduler, twice: linearizability oracle, and -race build with a futex parker invisible to the race detector",
+         "12 directed harnesses (tag retarget vs GetTag, commit vs write, two resumers, delete vs mount vs read, tagged push vs delete of a referenced blob and two pushers on one tag in immutable-tags mode, listing vs push/delete, concurrent first reads of a chunk-committed blob, cancel vs commit vs read; three of them also through ociclient->in-process transport->ociserver) explored over ALL schedules, plus 169 generated 2-thread programs (thorough: + 3x1 and 2+1 programs, ~5k) with <= 2 preemptions. Every complete schedule: brute-force linearizability of the recorded invocation/response history against the C02 reference model including the final read sweep. The same harness bodies are re-explored in a -race build where threads hand off through raw futex calls on plain words in //go:norace code, so the detector sees exactly the program's own synchronisation on EVERY explored schedule (not on whatever a stress run happens to hit); a detected race is reported with the two access sites.",
+         "<= 3 controlled threads (the property names up to 16); scheduling points at lock operations and thread start/exit (sound under data-race freedom, which the race mode checks on the same schedules); weak-memory effects beyond happens-before race detection are not modelled.",
+         "DESIGN.md 2.2, 3 C08"),
  "C09": ("exploration", "E4-enum",
          "bounded exhaustive enumeration: all subsets and all ordered pairs of a small scope universe against a bitmask set model",
          "All 2^8 (quick) / 2^13 (thorough) subsets of a universe of resource scopes chosen one per branch of scope.go (known/unknown actions incl. one sorting between pull and push, catalog sentinel, empty repository name, opaque word, unknown type, registry:catalog:pull), built by every construction route (NewScope sorted/permuted/duplicated, ParseScope of plain, permuted, comma-joined text, Union results, zero value, unlimited) and all ordered pairs for Union/Contains/Equal; Iter order, early stop, Len, Holds for every universe element, print/parse round trip, receiver text preservation. Exhaustive over the universe.",
